@@ -144,6 +144,18 @@ def run(rep, tier):
                 elif e['ret'] is None:
                     rep.ob(False, 'binson_parser_string_equals:EQUALS-RET', 'C03 binson_parser_string_equals: undecided return value', '')
         need(ntrue >= 1, 'C03: no true-returning path of binson_parser_string_equals on a STRING value')
+        # ---- clause 3: value assembly - the decoded word is the sign-extended little-endian reading of the w payload bytes
+        from engine.contracts import Contracts as _C
+        from props import tables as T
+        asm = T.decoder_assembly(_C(mod, LibHooks()), mod)
+        for (w, chk), rows in sorted(asm.items()):
+            need(rows, 'C03: no accepting path of _parse_integer for width %d' % w)
+            for row in rows:
+                rep.ob(row['ok'], '_parse_integer:ASSEMBLY:%d:%d' % (w, chk),
+                       'C03 a %d-byte %s is not decoded as the sign-extended little-endian value of its bytes: %s' % (
+                           w, 'integer/length' if chk else 'double bit pattern', row['why']),
+                       'byte slots of the decoded 64-bit word (least significant first): %s' % row['slots'],
+                       sample={'width': w, 'kind': 'integer' if chk else 'double', 'decoded_word_bytes': row['slots']})
         # ---- clause 2: exact sub-span (uncompacted token decoding, one calling context is enough: the stores are context independent)
         sres = runner.run(mod, [('binson_parser_next', lb, {'compact': (), 'weight': 5}) for lb in ('ok-d0', 'ok-d1')], hooks_cls=GHooks, post=post)
         nspan = 0
@@ -164,4 +176,4 @@ def run(rep, tier):
         'trusted_base': ['clang-14 IR', 'engine/absint*.py'],
         'explanation': 'abstract interpretation per current_type constant; span exactness from the affine offset forms at the store sites',
     })
-    rep.assumptions += ['decoded integer/double/boolean VALUES (sign extension, byte order) are bit-level and NOT decided']
+    rep.assumptions += ['the byte-slot domain covers the assembly loop (unrolled for the constant widths 1/2/4/8); that the w bytes handed to it are the token\'s payload is the span clause; boolean decoding is a single comparison and is not separately checked']
